@@ -40,6 +40,13 @@ def starts(tier):
     for t, d in itertools.product((0, 0.001, 1.5, 1000), repeat=2):
         for col in ('hue 120 saturation 100 brightness 50', 'hue 300 saturation 25 brightness 87.5'):
             out.append(('logical', '%s kelvin 3500 duration %s time %s' % (col, fmt(d), fmt(t))))
+    # a time of day pending in the time register: duration and colour still have to be re-expressed
+    for col in ('hue 120 saturation 100 brightness 50', 'hue 300 saturation 25 brightness 87.5'):
+        for d in (0, 0.001, 2.5, 1000):
+            out.append(('logical', '%s kelvin 3500 duration %s time at 12:00' % (col, fmt(d))))
+    for d in (0, 1, 2500):
+        out.append(('raw', 'units raw hue 21845 saturation 65535 brightness 32768 kelvin 9000 duration %d time at 12:00 or 13:30' % d))
+        out.append(('rgb', 'units rgb red 10 green 20 blue 90 kelvin 2700 duration %s time at *:15' % fmt(d / 1000.0)))
     raws = (0, 1, 257, 32767, 32768, 65534, 65535)
     for h, s, b in itertools.product(raws, repeat=3):
         out.append(('raw', 'units raw hue %d saturation %d brightness %d kelvin 2700 duration 1500 time 1500' % (h, s, b)))
@@ -115,6 +122,8 @@ def check_pair(w, mode, regs, chain):
         return (kind, text, msg)
     if sa[0][4] != sb[0][4]:
         return ('units-switch-changes-duration', text, '%r vs %r ms' % (sa[0][4], sb[0][4]))
+    if [e[1] for e in ra.trace if e[0] == 'wait_until'] != [e[1] for e in rb.trace if e[0] == 'wait_until']:
+        return ('units-switch-changes-pending-time-of-day', text, '')
     wa = [e[1] for e in ra.trace if e[0] == 'wait']
     wb = [e[1] for e in rb.trace if e[0] == 'wait']
     if len(wa) != len(wb) or any(abs(x - y) > 0.0005 for x, y in zip(wa, wb)):
@@ -141,6 +150,8 @@ def check_pair(w, mode, regs, chain):
 def _same(a, b):
     if isinstance(a, (int, float)) and isinstance(b, (int, float)):
         return a == b
+    if hasattr(a, 'match') and hasattr(b, 'match'):
+        return world.match_set(a) == world.match_set(b)
     return a == b and type(a) is type(b)
 
 
